@@ -396,6 +396,19 @@ func runC07(r *Rand, tier string, o *Out) {
 		add("val", l, "deeply-nested-values-cut")
 	}
 
+	// valid signatures of tens of kilobytes in a value — a struct with a very long name, a tuple of thousands of
+	// members — each twice in a row (whatever the first left behind — a cache, a table — meets the second)
+	for _, sg := range []string{"(i)<" + strings.Repeat("A", 20000) + ",a>", "(" + strings.Repeat("i", 17000) + ")"} {
+		n := 1
+		if sg[1] == 'i' && sg[2] == 'i' {
+			n = 17000
+		}
+		data := append(append(le(uint32(len(sg))), sg...), make([]byte, 4*n)...)
+		add("val", data, "long-valid-signature")
+		add("val", data, "long-valid-signature")
+		add("rd:[m]", append(le(2), append(append([]byte{}, data...), data...)...), "long-valid-signature")
+	}
+
 	rounds := 10
 	if tier == "thorough" {
 		rounds = 250
@@ -457,6 +470,17 @@ func runC07(r *Rand, tier string, o *Out) {
 			wrap := []string{"[%s]", "{s%s}", "(%s)", "(i%s)<S,a,b>", "[[%s]]", "{I[%s]}", "%s"}[r.Intn(7)]
 			add("sig", []byte(fmt.Sprintf(wrap, inner)), "member-count-mismatch")
 		}
+		if i == 0 {
+			// a chain of structs that each refer twice to the next: the signature of the first doubles with every link
+			var b strings.Builder
+			b.WriteString("package p\n")
+			const links = 19
+			for k := 0; k < links; k++ {
+				fmt.Fprintf(&b, "struct S%d\n\ta: S%d\n\tb: S%d\nend\n", k, k+1, k+1)
+			}
+			fmt.Fprintf(&b, "struct S%d\n\ta: int32\nend\ninterface A\n\tfn f(x: S0)\nend\n", links)
+			add("idl", []byte(b.String()), "struct-chain")
+		}
 		add("idl", []byte(idlSamples[r.Intn(len(idlSamples))]), "valid")
 		add("idl", mutateText(r, idlSamples[r.Intn(len(idlSamples))]), "mutated-text")
 		add("idl", r.Bytes(r.Intn(60)), "random")
@@ -516,6 +540,16 @@ func runC07(r *Rand, tier string, o *Out) {
 			rec := cl
 			if cl == "ok" || cl == "err" {
 				rec = "ok-or-err"
+			}
+			if c.kind == "struct-chain" {
+				// a listed finding: both sides answer known-weakness, whether it still fails is reported here
+				o.Op("X", "c07.idlx "+hx(c.data), "known-weakness", true)
+				if cl == "blowup" || cl == "timeout" || cl == "oom" {
+					o.Fail("idl parser needs memory exponential in a chain of structs that each refer twice to the next", fmt.Sprintf("%d bytes of IDL => %s (alloc=%d us=%d)", len(c.data), cl, results[i].alloc, results[i].micros))
+				} else if cl != "ok" && cl != "err" {
+					o.Fail("idl parser: "+cl, fmt.Sprintf("%q", c.data))
+				}
+				continue
 			}
 			o.Op("P", "c07.idl "+hx(c.data), rec, true)
 			if cl != "ok" && cl != "err" {
